@@ -130,7 +130,7 @@ def merge(results):
 
 
 def write_replay(prop, rec, seed) -> Path:
-    d = HOME / "replays" / "found"
+    d = Path(os.environ.get("VERIF_FOUND_DIR") or HOME / "replays" / "found")
     d.mkdir(parents=True, exist_ok=True)
     name = f"{prop}-{case_hash([rec.get('signature'), rec.get('case')])}.json"
     p = d / name
@@ -265,8 +265,8 @@ def main(argv=None):
         violations=len(m["violations"]),
     )
     problems = validate_evidence(ev)
-    evdir = HOME / "evidence"
-    evdir.mkdir(exist_ok=True)
+    evdir = Path(os.environ.get("VERIF_EVIDENCE_DIR") or HOME / "evidence")
+    evdir.mkdir(parents=True, exist_ok=True)
     (evdir / f"{prop}.json").write_text(json.dumps(ev, indent=1, default=repr) + "\n")
 
     rc = 0
